@@ -1547,6 +1547,28 @@ class Emitter:
         v, t = vt
         return wrap(lets, v), t
 
+    def weights_arg(self, e0):
+        """`thread_rng().sample(WeightedIndex::new(W).unwrap())`: the expression W"""
+        def find(e):
+            if isinstance(e, tuple):
+                if e and e[0] == "call" and isinstance(e[1], tuple) and e[1] and e[1][0] == "path" and len(e[1][1]) >= 2 \
+                        and e[1][1][-2:] == ["WeightedIndex", "new"] and len(e[2]) == 1:
+                    return e[2][0]
+                for x in e:
+                    r = find(x)
+                    if r is not None:
+                        return r
+            elif isinstance(e, list):
+                for x in e:
+                    r = find(x)
+                    if r is not None:
+                        return r
+            return None
+        w = find(e0)
+        if w is None:
+            self.fail("cannot find the weights of WeightedIndex::new")
+        return w
+
     def is_threading_match(self, e):
         s = unparen(e[1])
         return (s[0] == "field" and s[2] == "th") or (s[0] == "path" and s[1] == ["th"]) or \
@@ -1682,6 +1704,13 @@ class Emitter:
             n = lname(pat[1])
             if "draws" not in env or not self.uses_draws:
                 self.fail("random draw in a function that was not recognised as consuming the draw stream")
+            if getattr(self, "weights_mode", False):
+                # the companion definition `<fn>_weights`: the weight vector handed to WeightedIndex::new at this point
+                w = self.weights_arg(e0)
+                wv, wt = self.ex(w, env)
+                if wt != ("vec", "R"):
+                    self.fail(f"WeightedIndex over {wt}")
+                return f"WSOME:{atom(wv)}", None
             env = dict(env); env[pat[1]] = (n, "N")
             d = env["draws"][0]
             env["draws"] = ("draws", ("vec", "N"))
@@ -3236,6 +3265,32 @@ class Translator:
                 return ("block", st[:-1], e[3][0])
         return body
 
+    def emit_weights(self, where, file, rust, lean, body, self_ty, ps, env, rty):
+        """companion of a function that draws from `WeightedIndex::new(W)`: `<lean>_weights` = `some W` (evaluated at the
+        draw, in the state the function has there) or `none` when the function returns without drawing. The draw itself is
+        an input of `<lean>`; this definition is what ties the *distribution* of that input to the source."""
+        ps2 = [(n, t) for n, t in ps if n != "draws"]
+        binder = "".join(f" ({lname(n)} : {lean_ty(t)})" for n, t in ps2)
+        try:
+            em = Emitter(self, where, self_ty)
+            em.uses_draws = True
+            em.weights_mode = True
+            em.monadic = True
+            em.ret_ty = rty if rty != "unit" else None
+            em.final_lean_ty = "Option (List R)"
+            em.on_return = lambda env2, v: ("WNONE", None)
+            v, _ = em.stmts(body[1], body[2], dict(env), em.on_return, em.ret_ty)
+            if em.aux or "RET:" in v or "draws" in re.sub(r"WSOME|WNONE", "", v):
+                raise Unsupported(f"{where}: weights companion: unexpected shape")
+            v = v.replace("WNONE", "none").replace("WSOME:", "some ")
+            self.out.append(f"/-- `{file}`: `{rust}`: the weights handed to `WeightedIndex::new` (`none`: no draw) -/\n"
+                            f"def {lean}_weights{binder} : Option (List R) :=\n  {v}\n")
+        except (Unsupported, IndexError, KeyError, TypeError, AttributeError) as ex:
+            self.out.append(f"/-- `{file}`: `{rust}`: weights (NOT TRANSLATED) -/\n"
+                            f"def {lean}_weights{binder} : Option (List R) :=\n  none\n")
+            msg = str(ex) if isinstance(ex, Unsupported) else f"{where}: weights companion: internal: {ex!r}"
+            self.problems.append(f"{os.path.basename(file)}: {msg}")
+
     def translate_fn(self, toks, file, rust, lean, struct=None, impl=None, fuel=None, nth=0, ret_override=None, doc=None, param_types=None, default_elem=None):
         self.cur_lean = lean
         self.default_elem = default_elem or "C"
@@ -3359,6 +3414,8 @@ class Translator:
             self.register(struct, rust, sig)
             for ok, why in em.twins:
                 self.twins.append((lean, ok))
+            if "thread_rng" in text and "WeightedIndex" in text:
+                self.emit_weights(where, file, rust, lean, body, self_ty, ps, env, rty)
             return sig
         except (Unsupported, IndexError, KeyError, TypeError, AttributeError) as ex:
             self.emit_stub(toks, file, rust, lean, struct, impl, nth, param_types)
